@@ -390,7 +390,7 @@ func (e *Engine) execNext(fc *fnCtx, b *ssa.BasicBlock, st *State, x *ssa.Next) 
 	e.sc.assert(implies(and(st.Reach, okv), and(dom, "(not (= "+coll.T+" 0))", not(sel(visited.T, k.T)))))
 	_, _, dh, ds := e.mapHeapNames(m)
 	domArr := sel(e.heapIn(st, dh, ds), coll.T)
-	e.sc.assert(implies(and(st.Reach, not(okv)), "(forall ((kk "+ks+")) (! (=> (and (not (= "+coll.T+" 0)) (select "+domArr+" kk)) (select "+visited.T+" kk)) :pattern ((select "+visited.T+" kk))))"))
+	e.sc.assert(implies(and(st.Reach, not(okv)), "(forall ((kk "+ks+")) (! (=> (and (not (= "+coll.T+" 0)) (select "+domArr+" kk)) (select "+visited.T+" kk)) :pattern ((select "+visited.T+" kk)) :pattern ((select "+domArr+" kk))))"))
 	v := Val{T: e.sc.define("mapval", e.sortOf(m.Elem()), val), S: e.sortOf(m.Elem()), GoT: m.Elem()}
 	e.note("map iteration: every present key exactly once in arbitrary order (ghost visited set); the ranged map's key set is assumed not to change during the loop")
 	st.Cells[rng] = Val{T: e.sc.define("visited", visited.S, ite(okv, store(visited.T, k.T, "true"), visited.T)), S: visited.S}
